@@ -589,7 +589,9 @@ HCPcskphuff_write(accrec_t *access_rec, int32 length, const void *data)
     /* Don't allow random write in a dataset unless: */
     /*  1 - append onto the end */
     /*  2 - start at the beginning and rewrite (at least) the whole dataset */
-    if ((info->length != skphuff_info->offset) && (skphuff_info->offset != 0 && length <= info->length))
+    if ((info->length != skphuff_info->offset) &&
+        ((skphuff_info->offset != 0 && length <= info->length) ||
+         (skphuff_info->offset == 0 && length < info->length)))
         HRETURN_ERROR(DFE_UNSUPPORTED, FAIL);
 
     if (HCIcskphuff_encode(info, length, data) == FAIL)
